@@ -195,6 +195,18 @@ def opUpdate (j : Json) : R Json := do
       ("eventTypes", Json.arr (cur.eventTypes.map fun x => jPair x.name (origin (·.eventTypes) x)).toArray),
       ("sources", Json.arr (cur.sources.map fun x => jPair x.name (origin (·.sources) x)).toArray)])
 
+def opXmed (j : Json) : R Json := do
+  let ks ← (← fldArr j "kinds").mapM fun k => do
+    match ← str k with
+    | "R" => pure Edxml.XMed.XKind.record
+    | "N" => pure Edxml.XMed.XKind.note
+    | "K" => pure Edxml.XMed.XKind.other
+    | x => throw s!"unknown child kind {x}"
+  let cross ← fldBool j "cross"
+  let s := Edxml.XMed.mrun { cross := cross } ks
+  pure (Json.mkObj [("log", Json.arr (s.log.map fun (p : Nat × Nat) => (p.1 : Json)).toArray),
+                    ("children", s.children.length)])
+
 def natList (j : Json) : R (List Nat) := do (← arr j).mapM fun x => x.getNat?
 
 def itemOf (j : Json) : R Item := do
@@ -256,6 +268,7 @@ def dispatch (j : Json) : R Json := do
   | "cmp" => opCmp j
   | "track" => opTrack j
   | "update" => opUpdate j
+  | "xmed" => opXmed j
   | x => throw s!"unknown op {x}"
 
 partial def loop (inp out : IO.FS.Stream) : IO Unit := do
